@@ -18,19 +18,26 @@ CHECKS = {
         "and the JSON writer are not modelled. F1 (single top node -> KeyError) was repaired in /repo (df833cb).",
    technique=TECH, ref="DESIGN.md section 7 C01"),
  'C02': dict(
-   text="Theorems: c02_vote_is_argmax (each bootstrap iteration adds exactly one vote, to the child owning a leaf whose exact Pearson correlation over "
-        "the drawn marker subset is maximal, first index on ties), c02_key_order, c02_one_vote_per_iteration, c02_winner_plurality (the winner has "
-        "the plurality for every sorter that is a permutation with non-increasing votes, i.e. for numpy's unspecified tie order). Tie: choose_node on "
-        "random dyadic matrices with a recording generator, and real run_mapping runs in which every (cell, node, iteration) vote is recomputed by the "
-        "extracted model from the input files and the recorded subsets; winners, vote counts, runner-up multisets exact, correlations within 1e-9.",
+   text="Theorems: c02_vote_is_argmax (each bootstrap iteration votes for the first reference row whose exact Pearson correlation with the cell over the "
+        "drawn marker subset is maximal), c02_key_lt_is_correlation_order (the integer comparison used IS c1/sqrt(v1) < c2/sqrt(v2)) and c02_key_order (a strict "
+        "weak order), c02_subset_wellformed / c02_subset_size (an accepted draw is duplicate-free, within the n usable markers, of size max(1, round(f n)) which "
+        "lies in [1, n] for every factor in (0,1]), c02_one_vote_per_iteration, c02_choose_node_meets_spec (choose_node — sort by votes, keep the first n_assign, "
+        "drop vote-less runners-up — returns an outcome the acceptor check_choice accepts for EVERY permutation of the children with non-increasing votes, i.e. "
+        "whatever numpy's argsort does with ties) and c02_winner_plurality (what acceptance means). Tie: choose_node on random dyadic matrices with a recording "
+        "generator, and real run_mapping runs in which every (cell, node, iteration) vote is recomputed by the extracted model from the input files and the recorded "
+        "subsets; winners, vote counts, runner-up multisets exact (check_choice evaluated on every reported record), correlations within 1e-9.",
    note="Float rounding inside np.dot/np.mean is not modelled (decisions compared, near ties with relative margin <= 1e-9 skipped and counted); "
         "rng.choice itself is not modelled (the recorded draws are checked to be duplicate-free and of the right size); dyadic bootstrap factors.",
    technique=TECH, ref="DESIGN.md section 7 C02"),
  'C03': dict(
-   text="Theorems: c03_probability_range (1 <= votes <= iterations), c03_runner_up_shape, c03_sum_at_most_one, c03_corr_range (-1 <= r <= 1 by "
-        "Cauchy-Schwarz over exact rationals), c03_aggregate_is_running_product, c03_single_child_correlation, c03_single_child_record. Tie: every "
-        "record of real run_mapping runs (iteration count 1, zero runners-up, more runners-up than siblings, single-child chains, flatten / dropped "
-        "levels) checked against the arithmetic contract through the extracted check_choice on recomputed votes.",
+   text="Theorems: c03_choose_node_contract (for every tie order of the sort, every vote function with `iters` votes and every n_assign >= 1 the outcome of "
+        "choose_node has: a winner with the most votes and share wv/iters in (0,1]; at most n_assign-1 runners-up, distinct siblings other than the winner, strictly "
+        "positive votes none above the winner's, non-increasing, the top vote getters; shares summing to <= 1 and to exactly 1 when every vote getter could be listed), "
+        "the same clauses for any outcome the acceptor accepts (c03_probability_range, c03_runner_up_shape, c03_sum_at_most_one, c03_sum_exactly_one), "
+        "c03_corr_range (-1 <= r <= 1 by Cauchy-Schwarz over exact integers), and at the level of run_type_assignment for every decision procedure and valid "
+        "taxonomy: c03_aggregate_is_running_product and c03_single_child (a level below a single-child parent carries that child, probability 1, no runners-up and "
+        "the correlation of the level above; 1 at a single top node). Tie: every record of real run_mapping runs (iteration count 1, zero runners-up, more runners-up "
+        "than siblings, single-child chains, flatten / dropped levels) checked against the contract through the extracted check_choice on recomputed votes.",
    note="The [-1,1] clause is checked on the implementation with a 1e-9 allowance (real outputs contain 1.0000000000000002), the model proves it "
         "exactly; aggregate probability compared with the float running product within 1e-12.",
    technique=TECH, ref="DESIGN.md section 7 C03"),
@@ -64,9 +71,11 @@ CHECKS = {
    note="pandas CSV quoting and %.4f, gzip, h5py and json float printing are trusted; floats finite; F15 (column decided by substring of the level name) is a known finding.",
    technique=TECH, ref="DESIGN.md section 7 C15"),
  'C18': dict(
-   text="Theorems: c18_centroid_partial (a query row equal to leaf l's mean profile and non-constant on every drawn subset gets correlation 1 with l, every "
-        "leaf reaching correlation 1 is perfectly correlated, so under the property's proviso every iteration votes for l's ancestor: share 1, average "
-        "correlation 1, for every bootstrap factor) and c18_flat_subset_refuted (finding F6: a subset on which the centroid is constant). Tie: the four real "
+   text="Theorems: c18_centroid_partial (one iteration: a query row equal to leaf l's mean profile and non-constant on the drawn subset gets correlation 1 with l, "
+        "so under the property's proviso the iteration is won by a leaf of l's child), c18_centroid_unanimous_partial (all iterations: that child gets every vote, every "
+        "other child none) and c18_centroid_probability_one_partial (choose_node, for every tie order and runner-up count, reports that child with all votes — "
+        "probability 1 — and an empty runner-up list; at every node of the path, for every bootstrap factor), with a non-trivial instance of the hypotheses; "
+        "c18_flat_subset_refuted (finding F6: a subset on which the centroid is constant). Tie: the four real "
         "stages chained (statistics -> reference markers -> query markers -> mapping) on generated separable references, centroid queries in shuffled gene "
         "order, factors {0.25,0.5,0.9,1}, proviso evaluated from the recorded subsets.",
    note="Partial: the full statement is refuted by the faithful model for flat subsets (F6, known finding, documented convention of distance_utils); "
@@ -82,9 +91,12 @@ CHECKS = {
    technique=TECH, ref="DESIGN.md section 7 C20"),
  'C16': dict(
    text="Theorems (Coq, for all inputs): the integer type chosen contains the rounded bounds and is the first candidate that does; "
-        "every value between min and max fits after round-half-even; rounding moves a value by <= 1/2; identifier rewriting "
+        "every value between min and max fits after round-half-even; rounding moves a value by <= 1/2; c16_dtype_float_faithful (the comparison numpy really "
+        "makes for float32/float64 bounds — iinfo.max converted to the float type — coincides with the exact one away from the float boundaries) and "
+        "c16_dtype_float_boundary_refuted (at 2^32 in float32 the code's choice cannot hold the bound: witness of finding F5); identifier rewriting "
         "(Ensembl kept minus suffix, lookup, pairwise distinct placeholders, n_unmapped, recorded renaming = changed pairs); "
-        "decision table (rejections, no-change => no file). Tie: choose_int_dtype on all type-boundary values, is_ensembl on "
+        "decision table (rejections, no-change => no file). Tie: choose_int_dtype vs the float-faithful model on all type-boundary values in int/float/float32/float64 "
+        "(agreement required on EVERY input, F5 inputs included) and vs the exact statement of the property (which flags F5), is_ensembl on "
         "generated strings, validate_h5ad end-to-end on generated files vs the extracted model, input digests before/after.",
    note="is_x_integers is an oracle input to the model; NaN/inf not modelled; sparse matrices without any stored value are "
         "excluded here (C05/C13); species auto-detection not exercised.",
